@@ -13,14 +13,31 @@ except FileNotFoundError:
 have = {(f["property"], f["key"]) for f in d["findings"]}
 sha = subprocess.run(["git", "-C", "/repo", "rev-parse", "--short", "HEAD"], capture_output=True, text=True).stdout.strip()
 n = 0
+try:
+    observed = json.load(open(os.path.join(V, "evidence", pid + ".json")))["coverage"].get("findings_observed", {})
+except Exception:
+    observed = {}
 for f in sorted(glob.glob(os.path.join(V, "replays", pid + "-violation-*.json"))):
     r = json.load(open(f))
     if only and not any(r["key"].startswith(o) for o in only):
         continue
+    if "/" in r["key"] and r["key"].split("/")[0] in {k for p_, k in have if p_ == pid}:
+        # a new sub-case of a covered rule: extend its covers list
+        base, sub = r["key"].split("/", 1)
+        for f2 in d["findings"]:
+            if f2["property"] == pid and f2["key"] == base:
+                f2.setdefault("covers", []).append(sub)
+                f2["covers"].sort()
+                n += 1
+        continue
     if (pid, r["key"]) in have:
         continue
     ex = {k: v for k, v in r.items() if k in ("sql", "tree", "input", "history", "case")}
-    d["findings"].append({"property": pid, "key": r["key"], "what": r["what"][:400], "example": ex, "since": sha})
+    entry = {"property": pid, "key": r["key"], "what": r["what"][:400], "example": ex, "since": sha}
+    subs = [x for x in observed.get(r["key"], []) if x]
+    if subs:
+        entry["covers"] = subs
+    d["findings"].append(entry)
     have.add((pid, r["key"]))
     n += 1
 d["findings"].sort(key=lambda f: (f["property"], f["key"]))
